@@ -5,7 +5,7 @@
 J=${1:-6}
 cd /verif
 one_benign() { out=$(/verif/scripts/try_copy.sh "$1" 2>&1 | grep -v "normalised"); if [ -n "$out" ]; then echo "FALSE-ALARM $1"; echo "$out" | cut -c1-260; else echo "silent $1"; fi; }
-one_seed() { out=$(/verif/scripts/try_copy.sh "$1/patch.diff" 2>&1 | grep -c "VIOLATES"); if [ "$out" = 0 ]; then echo "MISSED $1"; else echo "detected $1 ($out)"; fi; }
+one_seed() { out=$(/verif/scripts/try_copy.sh "$1/patch.diff" 2>&1 | grep -cE "VIOLATES|UNDECIDED"); if [ "$out" = 0 ]; then echo "MISSED $1"; else echo "detected $1 ($out)"; fi; }
 export -f one_benign one_seed
 ls benign/*/*.diff | xargs -P $J -I{} bash -c 'one_benign {}'
 ls -d seeded/*/ | xargs -P $J -I{} bash -c 'one_seed {}'
